@@ -21,6 +21,8 @@ package hashprefix
 // The request sent to the lookup service asks for the TXT record of exactly the name built by getQuestion.
 //@ func (c *Checker) Check(host string) (ok bool, err error)
 //@   property C19
+//@   ghost at entry: exchOK = false
+//@   callsite (*github.com/AdguardTeam/AdGuardHome/internal/filtering/hashprefix.Checker).storeInCache(cc, hs, rh) requires cache-only-what-the-service-answered: exchOK
 //@   requires lower-cased-name: isLower(host)
 //@   modifies *
 //@   callsite (github.com/AdguardTeam/dnsproxy/upstream.Upstream).Exchange(up, req) requires len(req.Question) == 1 && req.Question[0].Name == lastQuestion && req.Question[0].Qtype == 16
